@@ -130,8 +130,12 @@ func TestVerifC18_RangeWindow(t *testing.T) {
 }
 
 // vC18GenTime draws a time aligned to unit, biased towards month ends, year ends and leap days.
-func vC18GenTime(t *rapid.T, label string, unit rune) time.Time {
-	y := rapid.IntRange(2015, 2025).Draw(t, label+".y")
+func vC18GenTime(t *rapid.T, label string, unit rune, yearSpan ...int) time.Time {
+	ylo, yhi := 2015, 2025
+	if len(yearSpan) == 2 {
+		ylo, yhi = yearSpan[0], yearSpan[1]
+	}
+	y := rapid.IntRange(ylo, yhi).Draw(t, label+".y")
 	if unit == 'Y' {
 		return vC18Date(y, 1, 1, 0)
 	}
@@ -157,7 +161,15 @@ func TestVerifC18_LongRanges(t *testing.T) {
 	rapid.Check(t, func(t *rapid.T) {
 		q := rapid.SampledFrom(vgtQuanta).Draw(t, "q")
 		unit := vgtFinest(q)
-		a := vC18GenTime(t, "a", unit)
+		// the number of views of a range grows with span / coarsest unit: keep it below ~30k (cost only)
+		ylo, yhi := 2015, 2025
+		switch vgtCoarsest(q) {
+		case 'D':
+			ylo, yhi = 2018, 2022
+		case 'H':
+			ylo, yhi = 2019, 2021
+		}
+		a := vC18GenTime(t, "a", unit, ylo, yhi)
 		var b time.Time
 		if rapid.IntRange(0, 3).Draw(t, "near") == 0 {
 			// end a few coarser units after the start, same finest-unit alignment
@@ -165,7 +177,7 @@ func TestVerifC18_LongRanges(t *testing.T) {
 			b = vgtAdd(vgtTrunc(a, cu), cu, rapid.IntRange(0, 14).Draw(t, "k"))
 			b = vgtAdd(b, unit, rapid.IntRange(0, 3).Draw(t, "j"))
 		} else {
-			b = vC18GenTime(t, "b", unit)
+			b = vC18GenTime(t, "b", unit, ylo, yhi)
 		}
 		if b.Before(a) {
 			a, b = b, a
